@@ -8,7 +8,7 @@ from .. import carriers, model
 from ..carriers import CANON, Carrier
 from ..core import SKIP, Sub
 from ..tests import REG, any_case
-from ..util import flags
+from ..util import flags, sint
 
 ID = "C15"
 RULE = ("one logical case per test (values on the dyadic grid, exactly representable in float32) rendered through every "
@@ -23,7 +23,7 @@ ASSUMPTIONS = ["dask time arrays and non-UTC time zones are outside the statemen
                "pressure_increasing_test documents no missing-data handling: it gets fully present series",
                "valid_range_test on sequences without a dtype is called with dtype= as its docstring asks"]
 
-DATA_KINDS = ["list_none", "list_nan", "tuple_nan", "f32", "int", "masked_nan", "masked_junk", "masked_mixed", "series", "series_shifted",
+DATA_KINDS = ["list_none", "list_nan", "tuple_nan", "f32", "int", "masked_nan", "masked_junk", "masked_mixed", "masked_int", "series", "series_shifted",
               "dask", "object"]
 TIME_KINDS = [k for k in carriers.TIME_CARRIERS if k != "dt64ns"]
 NAMES = ["gross_range", "climatology", "spike", "roc", "flat_line", "attenuated", "density", "pressure", "location", "speed"]
@@ -64,7 +64,7 @@ def check_carriers(tc, rec):
         return
     combos = []
     for k in DATA_KINDS:
-        if name == "pressure" and k in ("list_none", "masked_nan", "masked_junk", "masked_mixed", "object"):
+        if name == "pressure" and k in ("list_none", "masked_nan", "masked_junk", "masked_mixed", "masked_int", "object"):
             continue
         combos.append(Carrier(data=k, aux="f64", junk=tc.get("junk", 0.0)))
     if t.aux or len(t.obs) > 1:
@@ -77,7 +77,7 @@ def check_carriers(tc, rec):
                 combos.append(Carrier(time=k))
     combos.append(Carrier(span="tuple"))
     for m in tc.get("mixed", []):
-        if name == "pressure" and m["data"] in ("list_none", "masked_nan", "masked_junk", "masked_mixed", "object"):
+        if name == "pressure" and m["data"] in ("list_none", "masked_nan", "masked_junk", "masked_mixed", "masked_int", "object"):
             continue
         if not carriers.time_applicable(m["time"], tvals):
             continue
@@ -234,3 +234,99 @@ def check_reuse(tc, rec):
 
 
 SUBS.append(Sub("reused_mutable_carriers", reuse_case, check_reuse, quick=1500, thorough=20000))
+
+
+# ---- memory layout of N-d inputs: the same logical array, C-ordered or Fortran-ordered ------------------------
+ND_TESTS = ["gross_range", "spike", "roc", "flat_line", "climatology", "location"]
+
+
+@st.composite
+def layout_case(draw, tier="quick"):
+    tc = draw(any_case(tier, ND_TESTS))
+    n = REG()[tc["test"]].n(tc["case"])
+    divs = [r for r in range(1, n + 1) if n % r == 0] or [1]
+    tc["rows"] = draw(st.sampled_from(divs))
+    return tc
+
+
+def check_layout(tc, rec):
+    name, case = tc["test"], tc["case"]
+    t = REG()[name]
+    n = t.n(case)
+    r = tc["rows"]
+    c = n // r if r else 0
+    rec.note(n >= 4 and 1 < r < n, [f"test={name}", f"shape={'2d' if 1 < r < n else 'degenerate'}"])
+    if n == 0:
+        return
+    args, kw = t.build(case, CANON)
+
+    def shaped(a, how):
+        if isinstance(a, np.ndarray) and a.ndim == 1 and a.shape[0] == n:
+            b = a.reshape(r, c)
+            if how == "F":
+                return np.asfortranarray(b)
+            if how == "T":
+                return np.ascontiguousarray(b.T).T  # a transposed view: same logical array, column-major memory
+            return np.ascontiguousarray(b)
+        return a
+    res = {}
+    for how in ("C", "F", "T"):
+        a2 = tuple(shaped(a, how) for a in args)
+        out = _call(rec, name, t, a2, kw, {"layout": how})
+        if out is SKIP:
+            return
+        data, mask = np.ma.getdata(out), np.ma.getmaskarray(out)
+        if np.shape(data) != (r, c):
+            rec.fail(name, f"layout {how}: result shape {np.shape(data)} != input shape {(r, c)}", layout=how, test=name)
+            return
+        res[how] = [None if m else sint(v) for v, m in zip(np.asarray(data).ravel().tolist(), np.asarray(mask).ravel().tolist())]
+    for how in ("F", "T"):
+        if res[how] != res["C"]:
+            i = next(i for i, (p, q) in enumerate(zip(res["C"], res[how])) if p != q)
+            rec.fail(name, f"the same logical 2-D array in {how}-ordered memory gives different flags than in C order (element {i}: "
+                     f"{res['C'][i]} -> {res[how][i]})", expected=res["C"], got=res[how], index=i, layout=how, test=name)
+            return
+
+
+# ---- narrow float dtypes: values that are exact in float32 but not dyadic ------------------------------------
+@st.composite
+def narrow_case(draw, tier="quick"):
+    n = draw(st.integers(3, 12))
+    ks = draw(st.lists(st.integers(-30, 60), min_size=n, max_size=n))
+    dt = draw(st.sampled_from(["float32", "float16"]))
+    thr = st.sampled_from([0.1, 0.2, 0.3, 0.4, 0.5, 1.0, 0.05, 0.15])
+    return {"test": draw(st.sampled_from(["spike_average", "spike_differential", "gross_range", "roc", "flat_line"])),
+            "k": ks, "dtype": dt, "a": draw(thr), "b": draw(thr), "container": draw(st.sampled_from(["ndarray", "series"]))}
+
+
+def check_narrow(case, rec):
+    from ioos_qc import qartod
+    import pandas as pd
+    narrow = np.array([k / 10 for k in case["k"]], dtype=case["dtype"])
+    wide = narrow.astype(np.float64)  # exactly the same numbers
+    n = len(case["k"])
+    tt = (np.datetime64("2020-01-01", "ns") + (np.arange(n) * 60).astype("timedelta64[s]"))
+    a, b = case["a"], case["b"]
+    name = case["test"]
+    fns = {
+        "spike_average": lambda x: qartod.spike_test(x, suspect_threshold=min(a, b), fail_threshold=max(a, b)),
+        "spike_differential": lambda x: qartod.spike_test(x, suspect_threshold=min(a, b), fail_threshold=max(a, b), method="differential"),
+        "gross_range": lambda x: qartod.gross_range_test(x, fail_span=(-a * 10, b * 10), suspect_span=(-a * 5, b * 5)),
+        "roc": lambda x: qartod.rate_of_change_test(x, tt, a / 60),
+        "flat_line": lambda x: qartod.flat_line_test(x, tt, 60, 120, a),
+    }
+    rec.note(True, [f"test={name}", f"dtype={case['dtype']}"])
+    f = fns[name]
+    x_n = pd.Series(narrow) if case["container"] == "series" else narrow
+    want = flags(rec, name, rec.call(name, f, wide), n, carrier="float64")
+    got = flags(rec, name, rec.call(name, f, x_n), n, carrier=case["dtype"])
+    if want is SKIP or got is SKIP:
+        return
+    if want != got:
+        i = next(i for i, (p, q) in enumerate(zip(want, got)) if p != q)
+        rec.fail(name, f"{case['dtype']} {case['container']} gives different flags than a float64 array holding exactly the same "
+                 f"numbers (index {i}: {want[i]} -> {got[i]})", expected=want, got=got, index=i, narrow_dtype=case["dtype"], test=name)
+
+
+SUBS.append(Sub("memory_layout", layout_case, check_layout, quick=1200, thorough=16000))
+SUBS.append(Sub("narrow_float", narrow_case, check_narrow, quick=3000, thorough=40000))
